@@ -21,6 +21,7 @@ import Adsg.Model.Proc
 import Adsg.Model.Design
 import Adsg.Model.Decode
 import Adsg.Model.Heap
+import Adsg.Model.Traversal
 open Lean Adsg
 
 namespace Drv
@@ -536,6 +537,19 @@ def opHeapRun (j : Json) : R Json := do
   return Json.mkObj [("wf", Json.bool (first.WF && acts.all (fun a => match a with | .derive _ o => o.WF | .look _ => true))),
     ("steps", Json.arr (go w0 w0 acts).toArray)]
 
+/-! ### traversal functions (C02, function level) -/
+
+/-- per requested node: the confirmed edges; per requested start set: confirmed nodes and activated choices -/
+def opConfirmed (j : Json) : R Json := do
+  let g ← dsg (← field j "g")
+  let nodes ← fieldD j "nodes" (listOf nat) []
+  let starts ← fieldD j "starts" (listOf (listOf nat)) []
+  return Json.mkObj [
+    ("derivable", jList jNat (sortNat (derivable g))),
+    ("edges", jList (fun v => jList (fun (e : Node × Node) => Json.arr #[jNat e.1, jNat e.2]) (confirmedEdges g v)) nodes),
+    ("from", jList (fun vs => Json.mkObj [("nodes", jList jNat (sortNat (confirmedFrom g vs))),
+                                          ("choices", jList jNat (choicesFrom g vs))]) starts)]
+
 def dispatch (op : String) (j : Json) : R Json :=
   match op with
   | "ping" => return Json.str "pong"
@@ -557,6 +571,7 @@ def dispatch (op : String) (j : Json) : R Json :=
   | "restrict" => opRestrict j
   | "design_space" => opDesignSpace j
   | "heap_run" => opHeapRun j
+  | "confirmed" => opConfirmed j
   | "decode_full" => opDecodeFull j
   | "get_best" => opGetBest j
   | "correct_value" => opCorrect j
